@@ -372,6 +372,23 @@ func (k *Walker) Do(action string) {
 		} else {
 			w.Write(k.freshPath(), k.content())
 		}
+	case "edit-copy":
+		// a new file with the bytes of an existing one (equal blob ids under different paths)
+		if p, ok := k.pick(k.wtFiles()); ok && p != ".goitignore" {
+			w.Write(k.freshPath(), sn.WT()[p])
+		}
+	case "edit-copydir":
+		// a twin directory: same names and contents beneath another directory name (equal tree ids)
+		if d, ok := k.pick(k.wtDirs()); ok && !strings.Contains(d, "/") {
+			twin := d + "-twin"
+			if !ExistsOnDisk(sn, twin) {
+				for p, b := range sn.WT() {
+					if strings.HasPrefix(p, d+"/") {
+						w.Write(twin+p[len(d):], b)
+					}
+				}
+			}
+		}
 	case "edit-mod-samesize":
 		// change the content but not the size (defeats size/mtime shortcuts)
 		var cands []string
